@@ -83,9 +83,16 @@ pub struct ShutdownCase {
     /// protocol configuration) instead of an explicitly configured hyper builder
     #[serde(default)]
     pub native_builder: bool,
+    /// one more plain HTTP/1 connection is opened at time 0 and stays silent; its whole request is
+    /// put on the wire by the driver in the very step that fires the signal, before any server
+    /// task runs again (the connection task finds the signal and the request together)
+    /// 0 = no such connection; 1 = an ordinary request; 2 = a request short enough (23 bytes) to fit
+    /// entirely into the protocol detector's buffer
+    #[serde(default)]
+    pub instant_request: u8,
 }
 
-#[derive(Clone, Debug, Default)]
+#[derive(Clone, Default)]
 struct ConnObs {
     connected_ms: Option<u64>,
     refused: bool,
@@ -96,9 +103,15 @@ struct ConnObs {
     first_byte_ms: Option<u64>,
     /// how the client's connection future ended (diagnostics only)
     close_reason: Option<String>,
+    /// plain raw HTTP/1 clients: the pipe towards the server (its `read` counter says how many of
+    /// the client's bytes the server has taken off the connection)
+    c2s: Option<crate::net::PipeRef>,
 }
 
 pub struct ShutdownSim;
+
+/// A complete request of 23 bytes: it fits into the 24-byte buffer of the protocol detector.
+const TINY_REQUEST: &[u8] = b"GET /r/800 HTTP/1.1\r\n\r\n";
 
 fn head_bytes(r: &ReqSpec) -> Vec<u8> {
     format!(
@@ -178,6 +191,9 @@ async fn raw_h1_conn_on(net: Network, plan: ConnPlan, obs: Arc<Mutex<ConnObs>>, 
         }
     };
     obs.lock().connected_ms = Some(net.now_ms());
+    if !tls {
+        obs.lock().c2s = Some(io.tx.clone());
+    }
     let mut io = match client_io(io, tls).await {
         Ok(io) => io,
         Err(_) => {
@@ -452,7 +468,8 @@ impl Scenario for ShutdownSim {
             }
             conns.push(ConnPlan { kind, start_ms: r.below(30), reqs });
         }
-        ShutdownCase { seed, proto, conns, signal_at_ms: r.below(60), io_faulty: r.chance(1, 3), tls, native_builder: r.bool() }
+        let instant_request = if !tls && proto != ServerProto::H2 { *Rng::keyed(seed, "shutdown/instant").pick(&[0u8, 0, 1, 2]) } else { 0 };
+        ShutdownCase { seed, proto, conns, signal_at_ms: r.below(60), io_faulty: r.chance(1, 3), tls, native_builder: r.bool(), instant_request }
     }
 
     fn execute(&self, case: &ShutdownCase) -> Outcome {
@@ -475,7 +492,7 @@ impl Scenario for ShutdownSim {
                         plans.insert(r.id, r.handler.clone());
                     }
                 }
-                for id in [900u32, 901, 902] {
+                for id in [900u32, 901, 902, 800] {
                     plans.insert(id, HandlerPlan::default());
                 }
                 let ctx = HandlerCtx { net: net.clone(), log: log.clone(), plans: Arc::new(plans), origin: "http://srv.test".into() };
@@ -495,6 +512,20 @@ impl Scenario for ShutdownSim {
                 });
                 let mut obs: Vec<Arc<Mutex<ConnObs>>> = vec![];
                 let mut tasks = vec![];
+                // the connection of the instant request: connected now, silent until the signal
+                let instant_obs = Arc::new(Mutex::new(ConnObs::default()));
+                let mut instant_io = if case.instant_request > 0 && !case.tls {
+                    match net.raw_connect("http://srv.test", None) {
+                        Ok(io) => {
+                            instant_obs.lock().connected_ms = Some(net.now_ms());
+                            instant_obs.lock().c2s = Some(io.tx.clone());
+                            Some(io)
+                        }
+                        Err(_) => None,
+                    }
+                } else {
+                    None
+                };
                 for (i, c) in case.conns.iter().cloned().enumerate() {
                     let o = Arc::new(Mutex::new(ConnObs::default()));
                     obs.push(o.clone());
@@ -524,6 +555,34 @@ impl Scenario for ShutdownSim {
                 let t_s = net.now_ms();
                 let pumped_at_signal = crate::net::pumped_ms();
                 let _ = tx.send(());
+                let instant_spec = ReqSpec { id: 800, gap_ms: 0, head_split: None, body_len: 0, body_chunk: 10, body_delay_ms: 0, handler: HandlerPlan::default(), pipeline_bytes: 0 };
+                if let Some(mut io) = instant_io.take() {
+                    use futures_util::FutureExt;
+                    // synchronously: the pipe has room for the whole request
+                    let bytes = if case.instant_request == 2 { TINY_REQUEST.to_vec() } else { head_bytes(&instant_spec) };
+                    let wrote = io.write_all(&bytes).now_or_never();
+                    let (o, net) = (instant_obs.clone(), net.clone());
+                    tasks.push(tokio::task::spawn_local(async move {
+                        o.lock().first_byte_ms = Some(net.now_ms());
+                        if !matches!(wrote, Some(Ok(()))) {
+                            o.lock().results.push((800, net.now_ms(), Some("send: the request could not be written at once".into())));
+                            o.lock().closed_ms = Some(net.now_ms());
+                            return;
+                        }
+                        let mut io: Box<dyn Io> = Box::new(io);
+                        let mut carry = vec![];
+                        let res = read_response(&mut io, 800, HandlerPlan::default().resp_len, &mut carry).await;
+                        o.lock().results.push((800, net.now_ms(), res.err()));
+                        let mut b = [0u8; 16];
+                        loop {
+                            match io.read(&mut b).await {
+                                Ok(0) | Err(_) => break,
+                                Ok(_) => {}
+                            }
+                        }
+                        o.lock().closed_ms = Some(net.now_ms());
+                    }));
+                }
                 // a connect that is queued at the very instant of the signal, before the server task
                 // has run again: it sits in the acceptor when the server next looks
                 {
@@ -572,10 +631,11 @@ impl Scenario for ShutdownSim {
                 }
                 let server_result = if server.is_finished() { Some(server.await.unwrap()) } else { server.abort(); None };
                 let obs: Vec<ConnObs> = obs.iter().map(|o| o.lock().clone()).collect();
+                let instant = instant_obs.lock().clone();
                 let seen = log.lock().seen.clone();
                 let spawned = *exec.spawned.lock();
                 let finished = *exec.finished.lock();
-                ((t_s, pumped_at_signal), server_result, obs, seen, spawned, finished, finished_in_time, net.now_ms())
+                ((t_s, pumped_at_signal), server_result, obs, seen, spawned, finished, finished_in_time, net.now_ms(), instant)
             })
         }));
         drop(local);
@@ -590,11 +650,11 @@ impl Scenario for ShutdownSim {
                 out.violations.push(Violation::new("C07", "panic", json!({"location": p.location()}), format!("panic: {} at {}", p.message, p.location())));
             }
         }
-        let Ok(((t_s, pumped_at_signal), server_result, obs, seen, spawned, finished, finished_in_time, end)) = result else { return out };
+        let Ok(((t_s, pumped_at_signal), server_result, obs, seen, spawned, finished, finished_in_time, end, instant)) = result else { return out };
         if std::env::var("VERIF_TRACE").is_ok() {
             eprintln!("signal at {} ms, server {:?}, tasks {}/{} finished, end {} ms", t_s, server_result, finished, spawned, end);
             for (i, o) in obs.iter().enumerate() {
-                eprintln!("conn {}: {:?}", i, o);
+                eprintln!("conn {}: connected {:?} refused {} results {:?} closed {:?} first byte {:?} reason {:?} consumed {:?}", i, o.connected_ms, o.refused, o.results, o.closed_ms, o.first_byte_ms, o.close_reason, o.c2s.as_ref().map(|p| p.lock().read));
             }
             for s in &seen {
                 eprintln!("handler: {:?}", s);
@@ -629,6 +689,7 @@ impl Scenario for ShutdownSim {
             }
         }
         // (3) requests whose handler had started get their complete, correct response
+        let mut consumed_judged = 0u64;
         let mut stages: Vec<&'static str> = vec![];
         let mut not_closed: Vec<(usize, ConnKind, &'static str)> = vec![];
         for (ci, c) in case.conns.iter().enumerate() {
@@ -646,6 +707,34 @@ impl Scenario for ShutdownSim {
                             ),
                             None => viol("started_request_lost", format!("request {} reached the handler at {} ms (signal {} ms) and never completed", r.id, s.start_ms, t_s)),
                         }
+                    }
+                }
+            }
+            // (3b) A request the server has taken off the connection completely is a request it has
+            // started to handle, whatever the handler log says: the first request of a plain
+            // HTTP/1 connection that was open at the signal and whose every byte the server
+            // consumed must be answered (the client cannot tell a request that vanished inside the
+            // server from one that was processed). Later requests of the connection are not judged
+            // (a pipelined request may sit in the server's read buffer when keep-alive ends).
+            if let (Some(pipe), Some(r), Some(c0)) = (&o.c2s, c.reqs.first(), o.connected_ms) {
+                let consumed = pipe.lock().read;
+                let whole = head_bytes(r).len() as u64 + r.body_len as u64;
+                if c0 <= t_s && consumed >= whole && !c.kind.silent() {
+                    consumed_judged += 1;
+                    match o.results.iter().find(|x| x.0 == r.id) {
+                        Some((_, _, None)) => {}
+                        other => viol(
+                            "consumed_request_not_answered",
+                            format!(
+                                "connection {} was open at the signal ({} ms); the server took all {} bytes of its first request {} off the connection, but the client got {:?} (handler log: {:?})",
+                                ci,
+                                t_s,
+                                whole,
+                                r.id,
+                                other.map(|x| x.2.clone()),
+                                seen.iter().find(|s| s.id == r.id).map(|s| s.start_ms)
+                            ),
+                        ),
                     }
                 }
             }
@@ -697,7 +786,44 @@ impl Scenario for ShutdownSim {
                 }
             }
         }
+        // (3c) the connection whose request was put on the wire in the step that fired the signal:
+        // open and silent until then; if the server took the whole request it must answer it,
+        // and in any case it must close the connection
+        if let (Some(pipe), Some(_)) = (&instant.c2s, instant.connected_ms) {
+            let spec = ReqSpec { id: 800, gap_ms: 0, head_split: None, body_len: 0, body_chunk: 10, body_delay_ms: 0, handler: HandlerPlan::default(), pipeline_bytes: 0 };
+            let consumed = pipe.lock().read;
+            let whole = if case.instant_request == 2 { TINY_REQUEST.len() as u64 } else { head_bytes(&spec).len() as u64 };
+            let answered = matches!(instant.results.first(), Some((_, _, None)));
+            if consumed >= whole {
+                consumed_judged += 1;
+                if !answered {
+                    viol(
+                        "consumed_request_not_answered",
+                        format!(
+                            "a connection open (and silent) since 0 ms sent its request at the instant of the signal ({} ms); the server took all {} bytes of it off the connection, but the client got {:?} (handler started: {:?})",
+                            t_s,
+                            whole,
+                            instant.results.first().map(|x| x.2.clone()),
+                            seen.iter().find(|s| s.id == 800).map(|s| s.start_ms)
+                        ),
+                    );
+                }
+            }
+            match instant.closed_ms {
+                None => viol("instant_connection_not_closed", format!("the connection that sent its request at the instant of the signal ({} ms) was never closed by the server", t_s)),
+                Some(cl) => {
+                    let last = instant.results.iter().map(|x| x.1).max().unwrap_or(0).max(t_s);
+                    if cl > last + slack {
+                        viol("connection_closed_late", format!("the connection that sent its request at the instant of the signal closed at {} ms; signal {} ms, exchange finished {} ms", cl, t_s, last));
+                    }
+                }
+            }
+        }
         drop(viol);
+        out.add("probe.first_request_consumed_by_server_judged", consumed_judged);
+        if instant.connected_ms.is_some() {
+            out.count(if matches!(instant.results.first(), Some((_, _, None))) { "probe.request_at_signal_instant_served" } else { "probe.request_at_signal_instant_refused" });
+        }
         for (ci, kind, stage) in &not_closed {
             out.violations.push(Violation::new(
                 "C07",
